@@ -361,7 +361,9 @@ def r10_2(chk, repo, cr):
     args = fa[0][2]
     oka = len(fields) in (5, 6) and len(args) == len(fields) - 2 and args[2].as_atom() and args[2].as_atom()[0] == "starred"
     idx_l = args[0].key() if oka else ""
-    okorder = oka and "asymmetric_unit.labels" in idx_l and "site_positions" in args[2].key()
+    # Crystal.site_atoms / site_positions are the asymmetric unit's atomic_numbers / positions (properties): one spelling for both
+    canon = lambda k_: k_.replace("self.asymmetric_unit.atomic_numbers", "self.site_atoms").replace("self.asymmetric_unit.positions", "self.site_positions")
+    okorder = oka and "asymmetric_unit.labels" in idx_l and "site_positions" in canon(args[2].key())
     chk.ob("R10.2", CR, wq, "an atom line is: label, SFAC index, x, y, z [, occupancy] (blank separated)", bool(okorder),
            found=f"{tmpl!r} <- {[str(a)[:50] for a in args]}")
     # the reader takes a sixth token as the occupancy: the format carries it, so the writer has to write it
@@ -370,13 +372,28 @@ def r10_2(chk, repo, cr):
            okocc, fingerprint="res-occupancy", expected="'{label} {sfac} {x} {y} {z} {occupancy}'", found=tmpl)
     sf = [e for e in wev.events if e.kind == "assign" and e.name == "atom_sfac"]
     okplus = False
+    if not sf and oka:
+        # no list of indices of its own: the atom line looks the index up per atom, TABLE[element of the atom]
+        ia_ = args[1].as_atom()
+        tb_ = ia_[1].as_atom() if ia_ and ia_[0] == "sub" and len(ia_[2]) == 1 else None
+        if tb_ and tb_[0] == "comp" and tb_[1] == "DictComp" and len(tb_) == 5 and len(tb_[4]) == 1 and tb_[4][0][0] == "enumerate" and not tb_[4][0][2]:
+            ka_ = tb_[2].as_atom()
+            okplus = bool(ka_ and ka_[0] == "sub" and len(ka_[2]) == 1 and tb_[4][0][1].as_atom()[0] == "call"
+                          and ka_[1].key() == tb_[4][0][1].as_atom()[2][0].key() and (tb_[3] - ka_[2][0]) == P.const(1)
+                          and "site_atoms" in canon(ia_[2][0].key()))
+
+            class _E:
+                pass
+            e_ = _E()
+            e_.value = args[1]
+            sf = [e_]
     if sf:
         # [sfac.index(x) + 1 for x in site_atoms]: the element's position in the SFAC list, counted from one
         ca0 = sf[0].value.as_atom()
         elt0 = ca0[2] if ca0 and ca0[0] == "comp" and ca0[1] in ("ListComp", "GeneratorExp") and len(ca0) == 4 else None
         if elt0 is not None:
             ix = [a for a in find_atoms(elt0, lambda a: a[0] == "call" and call_name(a) == ".index" and len(a[2]) == 1)]
-            okplus = len(ix) == 1 and elt0 == P.atom(ix[0]) + 1 and "site_atoms" in ix[0][2][0].key()
+            okplus = len(ix) == 1 and elt0 == P.atom(ix[0]) + 1 and "site_atoms" in canon(ix[0][2][0].key())
     if sf and not okplus:
         # a lookup table {element: position + 1 for position, element in enumerate(sfac)} indexed by the atom's element
         ca = sf[0].value.as_atom()
@@ -386,12 +403,13 @@ def r10_2(chk, repo, cr):
             ka = tab[2].as_atom()
             okplus = bool(ka and ka[0] == "sub" and len(ka[2]) == 1 and tab[4][0][1].as_atom()[0] == "call"
                           and ka[1].key() == tab[4][0][1].as_atom()[2][0].key() and (tab[3] - ka[2][0]) == P.const(1)
-                          and "site_atoms" in elt[2][0].key())
+                          and "site_atoms" in canon(elt[2][0].key()))
     chk.ob("R10.2", CR, wq, "the SFAC index written is the 1-based position of the atom's element in the SFAC list", okplus,
            found=str(sf[0].value)[:120] if sf else None)
     sfl = d["SFAC"].key()
     chk.ob("R10.2", CR, wq, "the SFAC list holds the symbols of exactly the list the indices refer to",
-           ".symbol" in sfl and "numpy.unique(self.site_atoms)" in sfl and "numpy.unique(self.site_atoms)" in sf[0].value.key(), found=sfl[:120])
+           ".symbol" in sfl and "numpy.unique(self.site_atoms)" in canon(sfl) and bool(sf) and "numpy.unique(self.site_atoms)" in canon(sf[0].value.key()),
+           found=sfl[:120])
     pv = sx.ev("_parse_atom_line")
     chk.saw(SX, "_parse_atom_line")
     ret = dict_items(pv.returns[0].value)
